@@ -1129,6 +1129,36 @@ def fam_routes(case):
                               "%d nodes, links %s: differs from the network "
                               "built from the link-only matrix" % (
                                   n, sorted(links)), got[k], e))
+    # real -> complex and complex -> real updates of ONE object vs a fresh
+    # network with the final impedances (measures defined for complex values)
+    Z = Rl * (1.0 + 0.5j)
+
+    def cmeasures(net):
+        return {
+            "effective_resistance": np.array(_er_matrix(net, n), complex),
+            "admittive_degree": np.asarray(net.admittive_degree(), complex),
+            "average_effective_resistance": complex(
+                net.average_effective_resistance()),
+        }
+    for route, first, final in (("update(real->complex)", Rl, Z),
+                                ("update(complex->real)", Z, Rl * 2.0)):
+        try:
+            want = cmeasures(ResNetwork(final.copy(), silence_level=3))
+            net = ResNetwork(first.copy(), silence_level=3)
+            cmeasures(net)
+            net.update_resistances(final.copy())
+            got = cmeasures(net)
+        except Exception as ex:   # noqa
+            viol.append(V("ResNetwork.%s:raises" % route, repr(ex), repr(ex),
+                          "an updated network"))
+            continue
+        for k, e in want.items():
+            ev += 1
+            if not np.allclose(got[k], e, rtol=RT, atol=AT):
+                viol.append(V("ResNetwork.%s:route:%s" % (k, route),
+                              "%d nodes, links %s: differs from a fresh "
+                              "network with the final impedances" % (
+                                  n, sorted(links)), got[k], e))
     return {"viol": viol, "evals": ev, "trivial": False,
             "sig": (n, mask, tuple(assign))}
 
